@@ -84,7 +84,7 @@ func vC19SeqObserve(reqs []vC19Captured, toks []vC19Concrete, dest string) []map
 			parts := strings.SplitN(t.token, "/", 4)
 			return "v2/" + parts[1] + "/" + vC19HMAC(t.secret, cluster)
 		}
-		o := map[string]interface{}{"leak": base[i]["leak"], "same": base[i]["same"], "salted": false, "foreign": false}
+		o := map[string]interface{}{"leak": base[i]["leak"], "same": base[i]["same"], "uuid": base[i]["uuid"], "salted": false, "foreign": false}
 		for _, rq := range reqs {
 			hay := rq.uri + "\n" + rq.body
 			if u, err := url.QueryUnescape(hay); err == nil {
